@@ -173,6 +173,7 @@ func (s *State) havocAllHeap(why string) {
 }
 
 type Exec struct {
+	relied map[string]map[string]bool // callee contract key -> labels of postconditions assumed at call sites
 	outerVars map[string]Val // variables of enclosing functions named by clauses but not captured by this closure
 	unboundSeen map[string]bool
 	noAssume map[string]bool // obligations (func#kind:label) of other properties that failed: checked but not assumed afterwards
